@@ -155,7 +155,7 @@ def expAfterWrite (c : Cfg) (now : Int) (k : Nat) (pred : Option Entry) : Int :=
   | .creating _, some o => o.exp
   | .writing d, _ => satAdd now d
   | .accessing d, _ => satAdd now d
-  | .custom, none => satAdd now (c.expCreate.get k)
+  | .custom, none => let d := c.expCreate.get k; if d > 0 then satAdd now d else maxI64   -- no positive duration: no deadline
   | .custom, some o => let d := c.expUpdate.get k; if d > 0 then satAdd now d else o.exp
 
 /-- refresh deadline of a value written at `now` over the live predecessor `pred` -/
@@ -167,7 +167,7 @@ def refAfterWrite (c : Cfg) (now : Int) (k : Nat) (pred : Option Entry) (wk : Wr
   | .creating d, none => satAdd now d
   | .creating _, some o => o.ref
   | .writing d, _ => satAdd now d
-  | .custom, none => satAdd now (c.refCreate.get k)
+  | .custom, none => let d := c.refCreate.get k; if d > 0 then satAdd now d else maxI64
   | .custom, some o =>
       let d := if wk == .reload then c.refReload.get k else c.refUpdate.get k
       if d > 0 then satAdd now d else o.ref
